@@ -24,7 +24,7 @@ use duke::visitor::method::code::{CodeInterests, CodeVisitor, StackMapData};
 use duke::visitor::method::{MethodInterests, MethodVisitor};
 use duke::visitor::MultiClassVisitor;
 use java_string::JavaString;
-use crate::values::{ck, canon_annotations, canon_element, canon_inner_classes, canon_enclosing_method, canon_class, canon_classes, canon_packages, canon_parameters,
+use crate::values::{ck, canon_constant, canon_module, canon_annotations, canon_element, canon_inner_classes, canon_enclosing_method, canon_class, canon_classes, canon_packages, canon_parameters,
 	canon_type_annotations, canon_code_type_annotations, ValN};
 
 pub type Mask = Vec<&'static str>;
@@ -202,7 +202,7 @@ impl ClassVisitor for RecClass {
 		this.evs.push(attr_v(vis(visible, "RuntimeVisibleTypeAnnotations", "RuntimeInvisibleTypeAnnotations"), format!("{v:?}"), canon_type_annotations(&v)));
 		Ok(this)
 	}
-	fn visit_module(&mut self, x: Module) -> Result<()> { self.evs.push(attr("Module", format!("{x:?}"))); Ok(()) }
+	fn visit_module(&mut self, x: Module) -> Result<()> { self.evs.push(attr_v("Module", format!("{x:?}"), canon_module(&x))); Ok(()) }
 	fn visit_module_packages(&mut self, x: Vec<PackageName>) -> Result<()> { self.evs.push(attr_v("ModulePackages", format!("{x:?}"), canon_packages(&x))); Ok(()) }
 	fn visit_module_main_class(&mut self, x: ClassName) -> Result<()> { self.evs.push(attr_v("ModuleMainClass", format!("{x:?}"), canon_class(&x))); Ok(()) }
 	fn visit_nest_host_class(&mut self, x: ClassName) -> Result<()> { self.evs.push(attr_v("NestHost", format!("{x:?}"), canon_class(&x))); Ok(()) }
@@ -260,7 +260,7 @@ impl ClassVisitor for RecClass {
 /// flags last): the call order is not observable from outside the crate at this level
 pub fn events_of_field(f: &Field) -> Vec<Ev> {
 	let mut es = vec![];
-	if let Some(x) = &f.constant_value { es.push(attr("ConstantValue", format!("{x:?}"))); }
+	if let Some(x) = &f.constant_value { es.push(attr_v("ConstantValue", format!("{x:?}"), canon_constant(x))); }
 	if let Some(x) = &f.signature { es.push(attr_v("Signature", format!("{x:?}"), vec![ck(x.as_inner())])); }
 	if !f.runtime_visible_annotations.is_empty() { es.push(attr_v("RuntimeVisibleAnnotations", format!("{:?}", f.runtime_visible_annotations), canon_annotations(&f.runtime_visible_annotations))); }
 	if !f.runtime_invisible_annotations.is_empty() { es.push(attr_v("RuntimeInvisibleAnnotations", format!("{:?}", f.runtime_invisible_annotations), canon_annotations(&f.runtime_invisible_annotations))); }
